@@ -27,8 +27,8 @@
 (* invariants (Identities).                                                 *)
 EXTENDS Jmespath, Json
 CONSTANTS Mode, MaxDepth, W1, W2, W3, SlRange, EmitAst,
-          KnownDeviations    \* names of suspected defects of the implementation (notes/C13.md) whose cases are
-                             \* excluded from comparison / generation; {} = the specification, strictly
+          KnownDeviations    \* names of the suspected defects of the implementation (notes/C13.md) that cases are
+                             \* classified by (field "dev" of a case); classification never changes a prediction
 VARIABLES e, depth
 
 A == <<97>>  B == <<98>>
@@ -157,8 +157,8 @@ FnWraps(x) == { Fn(n, <<x>>) : n \in Fn1 }
 RhsL == Pick({Fa}, {Cur}, {})
 RhsWraps(x) == UNION { { <<"prj", l, x>>, <<"flt", l, x>>, <<"vpr", l, x>>, <<"fil", l, Fa, x>>, <<"fil", l, x, Cur>>,
                          <<"slc", l, Sl(N(1), Ab, Ab), x>> } : l \in RhsL }
-\* an expression is generated when its string reading is unambiguous and it does not hit an excluded known deviation
-Gen(y) == Renderable(y) /\ ~ShapeDeviation(y, KnownDeviations)
+\* an expression is generated when its string reading is unambiguous
+Gen(y) == Renderable(y)
 Wraps(x) == { y \in PostWraps(x) \cup BinWraps(x) \cup SelWraps(x) \cup FnWraps(x) \cup RhsWraps(x) : Gen(y) }
 
 Bases == Pick({Cur, Fa, Fb}, {}, {I(1), Raw(A), L(Ar(<<JInt(1), Ar(<<JInt(2)>>), JNull>>))})
@@ -220,12 +220,21 @@ Next == \/ /\ depth = 0 /\ depth' = 1 /\ e' \in { x \in First : Gen(x) }
 View == e
 
 Enc(r) == IF r[1] = "err" THEN <<"e", r[2]>> ELSE IF r[1] = "dc" THEN <<"dc", r[2]>> ELSE <<"v", Wire(r)>>
-XF == KnownDeviations
-Res(x, d, uo) == LET ra == Ev(x, d, Env("asc", XF)) IN
-                 IF uo THEN (LET rd == Ev(x, d, Env("desc", XF)) IN IF ra = rd THEN Enc(ra) ELSE <<"od", Enc(ra), Enc(rd)>>) ELSE Enc(ra)
+\* prediction: the specification, strictly (xf = {}), under both member orders when the order can matter
+Res(x, d, uo) == LET ra == Ev(x, d, Env("asc", {})) IN
+                 IF uo THEN (LET rd == Ev(x, d, Env("desc", {})) IN IF ra = rd THEN Enc(ra) ELSE <<"od", Enc(ra), Enc(rd)>>) ELSE Enc(ra)
+\* classification: names of the known-deviation classes the (expression, document) falls into
+ValueDevs == KnownDeviations \cap ValueDeviationNames
+DevsFor(x, d, ord) == LET strict == Ev(x, d, Env(ord, {})) IN
+                      IF Ev(x, d, Env(ord, ValueDevs)) = strict THEN {}
+                      ELSE LET s == { n \in ValueDevs : Ev(x, d, Env(ord, {n})) # strict } IN IF s = {} THEN ValueDevs ELSE s
+Devs(x, d, uo, may, shape) == shape \cup (IF may THEN DevsFor(x, d, "asc") \cup (IF uo THEN DevsFor(x, d, "desc") ELSE {}) ELSE {})
 CaseRec == LET uo == UsesOrder(e)
-               base == [e |-> Show(e), ds |-> DocSel, r |-> [i \in 1..Len(DocSel) |-> Res(e, Docs[DocSel[i]], uo)], se |-> StaticErr(e)]
-           IN IF EmitAst THEN [e |-> base.e, ds |-> base.ds, r |-> base.r, se |-> base.se, ast |-> AstWire(e)] ELSE base
+               may == ValueDevs # {} /\ MayDeviate(e)
+               shape == { n \in KnownDeviations \cap ShapeDeviationNames : ShapeDeviation(e, {n}) }
+               base == [e |-> Show(e), ds |-> DocSel, r |-> [i \in 1..Len(DocSel) |-> Res(e, Docs[DocSel[i]], uo)], se |-> StaticErr(e),
+                        dev |-> [i \in 1..Len(DocSel) |-> SetToSeq(Devs(e, Docs[DocSel[i]], uo, may, shape))]]
+           IN IF EmitAst THEN [e |-> base.e, ds |-> base.ds, r |-> base.r, se |-> base.se, dev |-> base.dev, ast |-> AstWire(e)] ELSE base
 Emit == IF depth = 0 THEN TRUE
         ELSE IF Mode = "docs" THEN PrintT(ToJson([doc |-> e[2][2], d |-> Wire(Docs[e[2][2]])]))
         ELSE PrintT(ToJson(CaseRec))
